@@ -18,7 +18,7 @@ REQUIRED_OBS = {"flattened": 100, "reused_instance_calls": 60, "parallel": 30, "
 
 
 def cases(tier, seed):
-    n = 60 if tier == "quick" else 1500
+    n = 60 if tier == "quick" else 4000
     cs = workload.reader_population(n, seed + 800, ndims=(2,), max_levels=4, max_fields=5,
                                     payloads=("random", "special", "nearconst"))
     for i, c in enumerate(cs):
